@@ -172,7 +172,8 @@ class SynthController:
     def get_info(self): return dict(player_id=self._player_id, map=self._raw_map)
 
 
-VERSIONS = {'wows': ['0', '8', '0'], 'wows126': ['13', '0', '0'], 'wot': '1.10.0', 'wowp': ['2', '1', '17']}
+# the two wows versions sit exactly on the two sides of the packet-table switch (>= 12.6.0 uses the renumbered table)
+VERSIONS = {'wows': ['12', '5', '9'], 'wows126': ['12', '6', '0'], 'wot': '1.10.0', 'wowp': ['2', '1', '17']}
 
 
 def make_player(dialect, defs_dir):
@@ -182,8 +183,7 @@ def make_player(dialect, defs_dir):
     class P(base):
         def _get_definitions(self, version): return Definitions(defs_dir)
         def _get_controller(self, version): return SynthController()
-    pl = P(VERSIONS[dialect])
-    assert recordings.dialect_of(pl) == dialect
+    pl = P(VERSIONS[dialect])        # (if the library picks another packet table for this version the histories below show it as a concrete difference)
     return pl
 
 
@@ -483,6 +483,21 @@ class History:
             if n and self.rng.random() < 0.7:
                 name, args, hdr = ms[n - k]; data = b''.join(gen_types.wire_of(t, self.val(t), max(hdr, 0)) for a, t in args)
             self.emit('EntityMethod', struct.pack('<II', eid, idx) + binstream(data), 'fault-index')
+        elif r < 0.68 and self.dialect != 'wowp':
+            # a creation packet whose header is fine and whose state block is cut or undecodable - for a NEW id (must not appear) and for an
+            # EXISTING id (the old entity must stay as it was): the failure happens after the entity object has been built
+            tname = self.rng.choice(self.view.names); props = self.view.exposed(tname)
+            eid = self.rng.choice([e for e in self.ents if e >= 0] or [unk]) if self.rng.random() < 0.5 else 10 ** 5 + self.rng.randrange(1000)
+            head = struct.pack('<ihii', eid, self.view.type_index(tname), 3, 4) + bytes(24) + (bytes(4) if self.dialect == 'wot' else b'')
+            if props:
+                i = self.rng.randrange(len(props)); n_, t_ = props[i]
+                good = bytes([i]) + gen_types.wire_of(t_, self.val(t_))
+                state = self.rng.choice([bytes([2]) + good,                       # announces two values, carries one
+                                         bytes([1]) + good[:max(1, len(good) - 1)],   # value cut short
+                                         bytes([1, 250]) + b'\x00',                 # property index out of range
+                                         bytes([1]) + good + b'\x99'])              # trailing garbage after the last value
+            else: state = bytes([1, 0, 0])
+            self.emit('EntityCreate', head + binstream(state), 'fault-create-bad-state')
         elif r < 0.75:
             cls = self.rng.choice(['EntityProperty', 'EntityMethod', 'Position', 'EntityCreate', 'BasePlayerCreate', 'NestedProperty'])
             if cls in self.ids: self.emit(cls, bytes(self.rng.randrange(256) for _ in range(self.rng.randrange(0, 7))), 'fault-truncated')
